@@ -289,6 +289,24 @@ func runOverflowShape(c *core.Case, res *core.Result, name string) *core.Result 
 		if uint(s.MetaEnd) > s.MaxPages {
 			res.Add("states_with_overflow_pages_in_use", 1)
 		}
+		if r.Chance(1, 2) {
+			// an aborted overflow-enabled transaction right before the reopen: it
+			// overwrites pages and flushes them (write-ahead pages come from the
+			// overflow area on the full file), then it is rolled back
+			if !w.Begin(txfile.TxOptions{EnableOverflowArea: true, WALLimit: 1000}) {
+				return done()
+			}
+			cw := w.candWrite()
+			for i := 0; i < 2+r.Intn(6) && i < len(cw); i++ {
+				if !w.Write(cw[(i*5+round)%len(cw)], 0, 0) {
+					return done()
+				}
+			}
+			if !w.FlushTx() || !w.End(ORollback) {
+				return done()
+			}
+			res.Add("aborted_overflow_transactions_before_reopen", 1)
+		}
 		if !w.Reopen() {
 			return done()
 		}
